@@ -75,14 +75,16 @@ fn gen_cfg(rng: &mut Rng, family: &str) -> Cfg {
         "c11" => (rng.range(1, 3) as usize, rng.range(1, 2) as usize),
         _ => (rng.below(3) as usize, rng.below(3) as usize),
     };
-    let steps = if family == "burst" { rng.range(40, 300) as usize } else { rng.range(10, 90) as usize };
+    let steps = if family == "burst" { rng.range(40, 300) as usize } else if matches!(family, "c08" | "c10") && rng.pct(15) { rng.range(90, 260) as usize } else { rng.range(10, 90) as usize };
     let profiles = (0..n_reqs + n_reps)
         .map(|_| if rng.pct(35) { 0 } else { rng.range(1, 5) as u8 })
         .collect();
     Cfg {
         n_reqs,
         n_reps,
-        requests: (0..n_reqs).map(|_| if family == "burst" { (rng.below(5) == 0) as u32 } else if family == "firehose" { rng.range(900, 2600) as u32 } else { rng.below(6) as u32 }).collect(),
+        // (fault and re-bind families: now and then a requestor with dozens of requests in flight, so that many replies
+        // are still under way when it fails or when the replier changes)
+        requests: (0..n_reqs).map(|_| if family == "burst" { (rng.below(5) == 0) as u32 } else if family == "firehose" { rng.range(900, 2600) as u32 } else if matches!(family, "c08" | "c10") && rng.pct(8) { rng.range(18, 48) as u32 } else { rng.below(6) as u32 }).collect(),
         steps,
         spurious: matches!(family, "c02" | "c08" | "c11" | "c10") && rng.pct(25),
         close_at: match family {
@@ -453,7 +455,16 @@ impl Sim {
         let mut hdr_opt = Some(headers.clone());
         if malformed {
             class = "malformed-reply";
-            match self.rng.below(6) {
+            match self.rng.below(8) {
+                6 | 7 => {
+                    // long tags, with multi-byte characters at every small offset around 16/32/64/128 bytes
+                    let pad = *self.rng.pick(&[15usize, 16, 31, 32, 62, 63, 64, 65, 127, 128, 300]);
+                    let ch = *self.rng.pick(&["é", "中", "💥", "x"]);
+                    let tag = format!("{}{}{}", "t".repeat(pad), ch.repeat(3), "z".repeat(self.rng.below(80) as usize));
+                    headers.insert("cid".into(), tag);
+                    hdr_opt = Some(headers.clone());
+                    cid = None;
+                }
                 0 => {
                     hdr_opt = None;
                     cid = None;
